@@ -246,80 +246,87 @@ def bumpBlock (s : Split) (mk : Nat → IR) (sub counter : Nat) (out : List IR) 
       else some (2 ^ 31, counter, out)
     else some (sub, counter, out)
 
+/-- `final_distance` -/
+def finalDistance (cache : List Int) (idx : Nat) (off : Int) : Option Nat :=
+  if idx = 0 then some (toUsize off)
+  else match cache[idx - 1]? with
+    | some c => some (toUsize (c + off))
+    | none => none
+
+/-- the literal part of one iteration: `if inserts.len() != 0 { … }`.
+Returns (btypel_sub, btypel_counter, mb_len, emitted so far). -/
+def litPart (e : Env) (s : St) (inserts : Pair) : Option (Nat × Nat × Nat × List IR) :=
+  if inserts.len ≠ 0 then
+    match litLoop e.he e.btl (inserts.len + e.btl.types.length + 2) inserts s.lsub s.lc s.mbLen s.out with
+    | none => none
+    | some (tmp, sub, counter, mbLen, out) =>
+      let out := out ++ pushLiterals e.he tmp
+      if tmp.len ≠ 0 then
+        if mbLen < tmp.len ∨ sub < tmp.len % 2 ^ 32 then none
+        else some (sub - tmp.len % 2 ^ 32, counter, mbLen - tmp.len, out)
+      else some (sub, counter, mbLen, out)
+  else some (s.lsub, s.lc, s.mbLen, s.out)
+
+/-- the `if final_distance > max_distance { dictionary } else { copy }` part.
+Returns (actual_copy_len, mb_len, local_dist_cache, emitted so far). -/
+def copyPart (e : Env) (cache : List Int) (interim : Pair) (mbLen : Nat) (out : List IR)
+    (idx : Nat) (off : Int) (finalDistance maxDistance copyLen : Nat) : Option (Nat × Nat × List Int × List IR) :=
+  if finalDistance > maxDistance then
+    if copyLen < 4 ∨ copyLen ≥ 25 then none        -- assert!(copy_len >= 4); assert!(copy_len < 25)
+    else
+      let dictionaryOffset := finalDistance - maxDistance - 1
+      let ndbits := dictSizeBits.getD copyLen 0
+      let action := dictionaryOffset / 2 ^ ndbits
+      let wordSubIndex := dictionaryOffset % 2 ^ ndbits
+      let wordIndex := wordSubIndex * copyLen + dictOffsets.getD copyLen 0
+      if wordIndex + copyLen > dictLen then none
+      else match e.expand copyLen dictionaryOffset with
+        | none => none
+        | some word =>
+          let actual := word.length
+          if actual ≤ mbLen then
+            let out := out ++ [IR.dict (copyLen % 256) (action % 256) (actual % 256) (wordSubIndex % 2 ^ 32)]
+            if word = (interim.splitAt actual).1.bytes then some (actual, mbLen - actual, cache, out)
+            else none                   -- assert_eq!
+          else if mbLen ≠ 0 then
+            some (actual, 0, cache, out ++ pushLiterals false (interim.splitAt mbLen).1)
+          else some (actual, mbLen, cache, out)
+  else
+    let actual := min mbLen copyLen
+    let out := if actual ≠ 0 then out ++ [IR.copy (finalDistance % 2 ^ 32) (actual % 2 ^ 32)] else out
+    let cache := if idx ≠ 1 ∨ off ≠ 0 then toI32 finalDistance :: cache.take 3 else cache
+    some (actual, mbLen - actual, cache, out)
+
 /-- one iteration of `for cmd in commands.iter()` -/
 def step (e : Env) (s : St) (cmd : Cmd) : Option St :=
-  let (inserts, interim) := s.iter.splitAt (min (cmd.insertLen % 2 ^ 32) s.mbLen)
+  let inserts := (s.iter.splitAt (min (cmd.insertLen % 2 ^ 32) s.mbLen)).1
+  let interim := (s.iter.splitAt (min (cmd.insertLen % 2 ^ 32) s.mbLen)).2
   let nbe := s.nbe + inserts.len
   let copyLen := copyLenCode cmd.copyLenField
   match distanceIndexAndOffset cmd e.dp with
   | none => none
   | some (idx, off) =>
-    let fd? : Option Nat :=
-      if idx = 0 then some (toUsize off)
-      else match s.cache[idx - 1]? with
-        | some c => some (toUsize (c + off))
-        | none => none
-    match fd? with
+    match finalDistance s.cache idx off with
     | none => none
-    | some finalDistance =>
+    | some fd =>
       let maxDistance := min nbe (windowSize e.lgwin)
       if inserts.len > s.mbLen then none     -- assert!(inserts.len() <= mb_len)
       else
-        -- literals
-        let lit? : Option (Nat × Nat × Nat × List IR) :=
-          if inserts.len ≠ 0 then
-            match litLoop e.he e.btl (inserts.len + e.btl.types.length + 2) inserts s.lsub s.lc s.mbLen s.out with
-            | none => none
-            | some (tmp, sub, counter, mbLen, out) =>
-              let out := out ++ pushLiterals e.he tmp
-              if tmp.len ≠ 0 then
-                if mbLen < tmp.len ∨ sub < tmp.len % 2 ^ 32 then none
-                else some (sub - tmp.len % 2 ^ 32, counter, mbLen - tmp.len, out)
-              else some (sub, counter, mbLen, out)
-          else some (s.lsub, s.lc, s.mbLen, s.out)
-        match lit? with
+        match litPart e s inserts with
         | none => none
         | some (lsub, lc, mbLen, out) =>
-          -- copy or dictionary
-          let cp? : Option (Nat × Nat × List Int × List IR) :=   -- (actual_copy_len, mb_len, cache, out)
-            if finalDistance > maxDistance then
-              if copyLen < 4 ∨ copyLen ≥ 25 then none
-              else
-                let dictionaryOffset := finalDistance - maxDistance - 1
-                let ndbits := dictSizeBits.getD copyLen 0
-                let action := dictionaryOffset / 2 ^ ndbits
-                let wordSubIndex := dictionaryOffset % 2 ^ ndbits
-                let wordIndex := wordSubIndex * copyLen + dictOffsets.getD copyLen 0
-                if wordIndex + copyLen > dictLen then none
-                else match e.expand copyLen dictionaryOffset with
-                  | none => none
-                  | some word =>
-                    let actual := word.length
-                    if actual ≤ mbLen then
-                      let out := out ++ [IR.dict (copyLen % 256) (action % 256) (actual % 256) (wordSubIndex % 2 ^ 32)]
-                      if word = (interim.splitAt actual).1.bytes then some (actual, mbLen - actual, s.cache, out)
-                      else none                   -- assert_eq!
-                    else if mbLen ≠ 0 then
-                      some (actual, 0, s.cache, out ++ pushLiterals false (interim.splitAt mbLen).1)
-                    else some (actual, mbLen, s.cache, out)
-            else
-              let actual := min mbLen copyLen
-              let out := if actual ≠ 0 then out ++ [IR.copy (finalDistance % 2 ^ 32) (actual % 2 ^ 32)] else out
-              let cache := if idx ≠ 1 ∨ off ≠ 0 then toI32 finalDistance :: s.cache.take 3 else s.cache
-              some (actual, mbLen - actual, cache, out)
-          match cp? with
+          match copyPart e s.cache interim mbLen out idx off fd maxDistance copyLen with
           | none => none
           | some (actual, mbLen, cache, out) =>
             match bumpBlock e.btc IR.bsc s.csub s.cc out with
             | none => none
             | some (csub, cc, out) =>
-              let d? : Option (Nat × Nat × List IR) :=
-                if copyLen ≠ 0 ∧ cmd.cmdPrefix ≥ 128 then bumpBlock e.btd IR.bsd s.dsub s.dc out
-                else some (s.dsub, s.dc, out)
-              match d? with
+              match (if copyLen ≠ 0 ∧ cmd.cmdPrefix ≥ 128 then bumpBlock e.btd IR.bsd s.dsub s.dc out
+                     else some (s.dsub, s.dc, out)) with
               | none => none
               | some (dsub, dc, out) =>
-                let (copied, remainder) := interim.splitAt actual
+                let copied := (interim.splitAt actual).1
+                let remainder := (interim.splitAt actual).2
                 some { iter := remainder, mbLen := mbLen, nbe := nbe + copied.len, cache := cache,
                        lc := lc, cc := cc, dc := dc, lsub := lsub, csub := csub, dsub := dsub, out := out }
 
